@@ -1457,6 +1457,55 @@ fn gen_case(rng: &mut Rng, idx: usize) -> Case {
 
 // ---------------------------------------------------------------------------------------------
 
+/// Which `write_word_info` is linked (variant `storeDf` of C05's writer model, `df=` on the case line): a user row
+/// naming an own entry as `U1` - is the index 1 stored (repair of D8's first half) or the raw id?  By behaviour.
+pub fn probe_df(system: Option<&JapaneseDictionary>) -> &'static str {
+    let Some(sys) = system else { return "cur" };
+    let row = |s: &str, df: &str| format!("{s},0,0,0,{s},名詞,普通名詞,一般,*,*,*,{s},{s},{df},A,*,*,*,*\n", s = s, df = df);
+    let r = catch(|| -> Option<bool> {
+        let mut b = DictBuilder::new_user(sys);
+        b.read_lexicon(format!("{}{}", row("い", "U1"), row("う", "*")).as_bytes()).ok()?;
+        b.resolve().ok()?;
+        let mut out = vec![];
+        b.compile(&mut out).ok()?;
+        let ld = sudachi::dic::DictionaryLoader::read_user_dictionary(&out).ok()?;
+        let wi = ld.lexicon.get_word_info(0, sudachi::dic::subset::InfoSubset::all()).ok()?;
+        Some(wi.dictionary_form() == "う")
+    });
+    match r { Ok(Some(true)) => "fix", _ => "cur" }
+}
+
+/// What the REAL loader says about the bytes a successful `compile` emitted (compared with the prediction of the
+/// composed model, `Model/BuildLoad.lean loadToken`): outcome of `DictionaryLoader::read_system_dictionary` /
+/// `read_user_dictionary`, number of words, POS rows, matrix dimensions, file length, `get_word_param` of every word,
+/// outcome class of `get_word_info` (all fields) of every word.
+fn load_token(bytes: &[u8], user: bool) -> String {
+    use sudachi::dic::DictionaryLoader;
+    let r = catch(|| -> Result<String, ()> {
+        let ld = if user { DictionaryLoader::read_user_dictionary(bytes) } else { DictionaryLoader::read_system_dictionary(bytes) }.map_err(|_| ())?;
+        let (np, dims) = match &ld.grammar {
+            Some(g) => (g.pos_list.len().to_string(), format!("{}x{}", g.conn_matrix().num_left(), g.conn_matrix().num_right())),
+            None => ("-".to_string(), "-".to_string()),
+        };
+        let n = ld.lexicon.size();
+        let par: Vec<String> = (0..n).map(|i| match catch(|| ld.lexicon.get_word_param(i)) {
+            Ok((l, r, c)) => format!("{}.{}.{}", l, r, c),
+            Err(_) => "PANIC".to_string(),
+        }).collect();
+        let wi: String = (0..n).map(|i| match catch(|| ld.lexicon.get_word_info(i, sudachi::dic::subset::InfoSubset::all()).map(|_| ())) {
+            Ok(Ok(())) => 'o',
+            Ok(Err(_)) => 'e',
+            Err(_) => 'P',
+        }).collect();
+        Ok(format!(" load=ok:w{}:p{}:{}:b{} par={} wi={}", n, np, dims, bytes.len(), if par.is_empty() { "-".to_string() } else { par.join(";") }, if wi.is_empty() { "-".to_string() } else { wi }))
+    });
+    match r {
+        Ok(Ok(s)) => s,
+        Ok(Err(())) => " load=err".to_string(),
+        Err(_) => " load=PANIC".to_string(),
+    }
+}
+
 fn show_out(o: &Out, bin: Option<&BinDict>) -> String {
     match o {
         Out::Ok { len, res, .. } => match bin {
@@ -1569,6 +1618,9 @@ build error other than the generic arity error; distinct by case line".into();
     run.extra.insert("variant_n1_n3_s4_s5_s6_s7_s8".into(), serde_json::json!(fx));
     // S8 repaired: a read_lexicon that fails leaves no row behind
     let atomic = fx.as_bytes().get(6) == Some(&b'1');
+    // D8 first half (C05's writer variant): how the linked `write_word_info` stores a `U<n>` dictionary form
+    let df = probe_df(sys.as_ref().map(|s| &s.dic));
+    run.extra.insert("variant_df".into(), serde_json::json!(df));
 
     let n = run.opts.count;
     for idx in 0..n {
@@ -1697,14 +1749,16 @@ build error other than the generic arity error; distinct by case line".into();
             None => ("-".to_string(), String::new(), String::new()),
         };
         let payload = format!(
-            "v={} rf={} fx={} nd={} user={} upos={} usys={} ops={} desc={} trie={} ks={}",
-            variant, rf, fx, join(nd.iter(), ","), user_tok, upos, usys, ops_tok, case.desc.len(), trie_len, ks_token
+            "v={} rf={} fx={} df={} nd={} user={} upos={} usys={} ops={} desc={} trie={} ks={}",
+            variant, rf, fx, df, join(nd.iter(), ","), user_tok, upos, usys, ops_tok, case.desc.len(), trie_len, ks_token
         );
 
         // canonical answer: a key with a NUL byte handed to the trie builder is outside the
         // builder's contract (it panics or silently builds a corrupt trie): both count as NULKEY
         let reached_index_with_nul = nul_indexed && match &out { Out::Ok { .. } => true, Out::Panic { stage, .. } => *stage == "compile", _ => false };
         let mut answer = if reached_index_with_nul { "NULKEY".to_string() } else { show_out(&out, bin.as_ref()) };
+        // the real loader on the emitted bytes, next to what the composed model (C06 builder -> C05 writer -> C05 loader) predicts
+        if !reached_index_with_nul { if let Out::Ok { bytes, .. } = &out { answer.push_str(&load_token(bytes, case.user)); run.bump("load-compared"); } }
         if ops.iter().any(|o| matches!(o, Op::ConnIgn(_) | Op::LexIgn(_))) {
             let items: Vec<String> = ign_at.iter().map(|(i, r)| match lex_probes.iter().find(|p| p.0 == *i) { Some((_, p)) => format!("{}/{}", r, p), None => r.clone() }).collect();
             answer.push_str(&format!(" ign={}", items.join(",")));
